@@ -282,6 +282,9 @@ func (c *GenCtx) GenInt(t *rapid.T, depth int) *Node {
 			if refs := c.refsOf(TyInt); len(refs) > 0 {
 				return Ref(rapid.SampledFrom(refs).Draw(t, "intRef"), TyInt)
 			}
+			if rapid.Bool().Draw(t, "intOfText") {
+				return Call("int", Str(rapid.SampledFrom([]string{"0", "2", "7", "12"}).Draw(t, "intOfTextLit")))
+			}
 			return Int(int64(rapid.IntRange(0, 12).Draw(t, "intLit3")))
 		case 6:
 			if c.Kind == KCSV && !c.NoValue {
@@ -342,7 +345,12 @@ func (c *GenCtx) GenFloat(t *rapid.T, depth int) *Node {
 			if refs := c.refsOf(TyFloat); len(refs) > 0 {
 				return Ref(rapid.SampledFrom(refs).Draw(t, "floatRef"), TyFloat)
 			}
-			return Float(rapid.SampledFrom(floatLits).Draw(t, "floatLit3"))
+			// a constant conversion call (folded when the plan is built); whole
+			// numbers included: the float 3 must not become the integer 3
+			if rapid.Bool().Draw(t, "floatOfInt") {
+				return Call("float", Int(int64(rapid.IntRange(0, 4).Draw(t, "floatOfIntLit"))))
+			}
+			return Call("float", Str(rapid.SampledFrom([]string{"2", "3", "2.5", "0.5", "10"}).Draw(t, "floatOfText")))
 		}
 	}
 }
